@@ -70,6 +70,26 @@ package mitm
 //@        (net.ParseIP(hostname) == nil ==> len(tmpl.DNSNames) == 1 && tmpl.DNSNames[0] == hostname && len(tmpl.IPAddresses) == 0)
 //@   at call 0 of CreateCertificate before assert[organization-from-the-configuration] len(tmpl.Subject.Organization) == 1 && tmpl.Subject.Organization[0] == c.org && tmpl.Subject.CommonName == hostname
 //@   at call 0 of Lock after set tlsc.gIssuedFor = hostname
+// the signature algorithm is left unset in the template, so that x509 picks the one that fits the kind of the CA key
+// (RSA, ECDSA, Ed25519): a fixed algorithm makes issuing fail for every other kind of key
+//@   at call 0 of CreateCertificate before assert[signature-algorithm-follows-the-ca-key] tmpl.SignatureAlgorithm == 0 && tmpl.PublicKeyAlgorithm == 0
+
+// The setters reach the configuration that issues the certificates (not a copy of it).
+//@ func (*Config).SetOrganization
+//@   serves C06
+//@   requires c != nil
+//@   modifies c.org
+//@   ensures[organization-set-on-this-configuration] c.org == org
+//@ func (*Config).SetValidity
+//@   serves C06
+//@   requires c != nil
+//@   modifies c.validity
+//@   ensures[validity-set-on-this-configuration] c.validity == validity
+//@ func (*Config).SkipTLSVerify
+//@   serves C06
+//@   requires c != nil
+//@   modifies c.skipVerify
+//@   ensures[flag-set-on-this-configuration] c.skipVerify == skip
 
 // The GetCertificate callbacks handed to crypto/tls: which name the certificate is issued for.
 //@ func (*Config).TLSForHost$1
